@@ -1056,6 +1056,43 @@ pub fn main(a: Args) -> i32 {
         }
     }
 
+    // ---- round trip THROUGH THE FILES THE CLI WRITES (shipped profile run only): implementation-only oracle.  Basis sizes
+    // around and exactly at multiples of the block size, empty and one-byte files included: `copia signature`, then
+    // `copia delta` on that signature file, then `copia patch` on that delta file must all succeed and give back the source
+    if c.copia.is_some() && !c.checked {
+        let copia = c.copia.clone().unwrap();
+        let d = format!("{}/clirt", c.out.dir);
+        let sizes: Vec<usize> = vec![0, 1, 511, 512, 513, 1024, 2047, 2048, 2049, 4096, 6149, 8192, 65536, 65537, 131072];
+        for (i, bsz) in sizes.iter().enumerate() {
+            for bs in [512usize, 2048, 65536] {
+                if !thorough && (i + bs / 512) % 2 == 1 && ![2048usize, 8192, 65536].contains(bsz) { continue; }
+                let _ = std::fs::remove_dir_all(&d);
+                std::fs::create_dir_all(&d).unwrap();
+                let basis: Vec<u8> = (0..*bsz).map(|j| ((j * 7 + i) % 251) as u8).collect();
+                let mut src = basis.clone();
+                if !src.is_empty() { let k = src.len() / 2; src[k] ^= 0x55; }
+                src.extend_from_slice(b"tail");
+                std::fs::write(format!("{}/basis", d), &basis).unwrap();
+                std::fs::write(format!("{}/src", d), &src).unwrap();
+                let run = |args: &[&str]| {
+                    let o = std::process::Command::new(&copia).args(args).current_dir(&d).output().unwrap();
+                    (o.status.code(), String::from_utf8_lossy(&o.stderr).lines().last().unwrap_or("").chars().take(160).collect::<String>())
+                };
+                let bss = bs.to_string();
+                let c1 = run(&["signature", "basis", "-o", "b.sig", "--block-size", &bss]);
+                let c2 = run(&["delta", "src", "b.sig", "-o", "s.delta"]);
+                let c3 = run(&["patch", "basis", "s.delta", "-o", "out"]);
+                c.out.count("cli_file_round_trips");
+                let out = std::fs::read(format!("{}/out", d)).unwrap_or_default();
+                if c1.0 != Some(0) || c2.0 != Some(0) || c3.0 != Some(0) || out != src {
+                    let sigf = std::fs::read(format!("{}/b.sig", d)).unwrap_or_default();
+                    c.fail(format!("round trip through the files the CLI writes failed for a basis of {} bytes at block size {}: signature {:?}, delta {:?} [{}], patch {:?} [{}], output==source {} ; the signature file: CLIDELTA {}", bsz, bs, c1.0, c2.0, c2.1, c3.0, c3.1, out == src, hex(&sigf[..sigf.len().min(400)])));
+                }
+            }
+        }
+        let _ = std::fs::remove_dir_all(&d);
+    }
+
     // ---- CLI readers on crafted / hostile files (shipped profile run only) ----
     if c.copia.is_some() && !c.checked {
         let ncli = if thorough { 40 } else { 10 };
